@@ -216,6 +216,9 @@ func (env *Env) eval(e ast.Expr) SV {
 		if d, ok := x.eng.defines[n.Name]; ok && len(d.params) == 0 {
 			return env.eval(d.body)
 		}
+		if n.Name == "ROOT" {
+			return SV{K: SGo, V: Val{ic("ROOT")}, Ty: types.Typ[types.String]}
+		}
 		sfail("unknown name %q", n.Name)
 	case *ast.BasicLit:
 		switch n.Kind {
@@ -754,6 +757,9 @@ func (env *Env) callExpr(n *ast.CallExpr) SV {
 	case "written":
 		v := arg(0)
 		return svInt(ghost(env.st, "written:"+x.vc.canon(v.V[1].T)))
+	case "inroot", "rooted", "seg", "relsafe":
+		v := arg(0)
+		return svBool(sx(fn.Name, v.V[0].T))
 	case "locked":
 		// locked(x, "mu"): the mutex field mu of *x is held at this point (ghost lock set)
 		v := arg(0)
